@@ -136,7 +136,7 @@ Built build(const model::MLib& m) {
         b.ext.push_back(c);
         cells[n] = c;
     }
-    const double tol = 0.01 * (m.precision / m.unit);
+    const double lib_tol = 0.01 * (m.precision / m.unit);
     for (size_t ci = 0; ci < m.cells.size(); ci++) {
         const model::MCell& mc = m.cells[ci];
         Cell* c = b.lib.cell_array[ci];
@@ -158,13 +158,30 @@ Built build(const model::MLib& m) {
             auto U = [&](dg_t v) { return user(m, v) / k; };
             auto Wd = [&](dg_t v) { return mp.scale_width ? user(m, v) / k : user(m, v); };
             Vec2 start = Vec2{U(mp.spine[0].x), U(mp.spine[0].y)};
+            const double tol = mp.tol_steps > 0 && mp.impl == 0 ? mp.tol_steps * (m.precision / m.unit) : lib_tol;
             if (mp.impl == 0) {
                 FlexPath* p = (FlexPath*)allocate_clear(sizeof(FlexPath));
                 uint64_t ne = (uint64_t)(mp.nelem < 1 ? 1 : mp.nelem);
-                p->init(start, ne, 2 * Wd(mp.hw), U(mp.sep), tol, tag);
+                const bool varying = mp.voffs.size() == mp.spine.size() && ne == 1;
+                if (varying) {
+                    const double w0 = 2 * Wd(mp.hw), o0 = U(mp.voffs[0]);
+                    p->init(start, 1, &w0, &o0, tol, &tag);
+                } else {
+                    p->init(start, ne, 2 * Wd(mp.hw), U(mp.sep), tol, tag);
+                }
                 Array<Vec2> pts = {};
-                for (size_t i = 1; i < mp.spine.size(); i++)
-                    pts.append(Vec2{U(mp.spine[i].x), U(mp.spine[i].y)});
+                for (size_t i = 1; i < mp.spine.size(); i++) {
+                    if (varying) {
+                        // one segment at a time, each ending at its own offset from the spine
+                        Array<Vec2> one = {};
+                        one.append(Vec2{U(mp.spine[i].x), U(mp.spine[i].y)});
+                        double off = U(mp.voffs[i]);
+                        p->segment(one, NULL, &off, false);
+                        one.clear();
+                    } else {
+                        pts.append(Vec2{U(mp.spine[i].x), U(mp.spine[i].y)});
+                    }
+                }
                 for (uint64_t e = 0; e < ne; e++) {
                     // (set before the segments are added: the bends are built as the centre line grows)
                     if (mp.bend > 0) {
